@@ -8,7 +8,10 @@
     C01 / C08         `np.minx` Nodup, within `1..n`, = the constrained coordinates → `C01_pe_minx`
     C20 worlds        `PEWF pe`                                         → `C20_pe_wf`
     C12 / C03         `hori` (orientation unknown `i` has `index_orientation() = i`) → `C01_pe_unknowns`, `C12_pe_hori`
-    C07 / C12         the orientation unknown is not in the regularisation set → `C07_pe_ori_not_regularised`
+    C07 / C12         the orientation unknown is not in the regularisation set → `C07_pe_ori_not_regularised`,
+                      in C07's own form `colOf … ∉ S`                              → `C07_pe_ori_not_regularised_colOf`
+    memory safety     every element of `unknowns_` is written, by ONE claimant    → `C01_pe_unknowns_total`
+                      (the invariant behind the heap-buffer-overflow fixed by /repo 3fb8708)
 
   and the hypotheses discharged where they are used: `C01_net_facade_of_project_equations`,
   `C01_net_cholesky_of_project_equations`, `C20_world_of_project_equations`,
@@ -24,6 +27,8 @@
 -/
 import Gama.Lemmas.ProjectEquationsExample
 import Gama.Lemmas.ProjectEquationsOri
+import Gama.Lemmas.ProjectEquationsTotal
+import Gama.Lemmas.AssemblyAgree
 import Gama.Lemmas.ProjectEquationsGlue
 import Gama.Props.C01.NetFacade
 import Gama.Props.C20.World
@@ -136,6 +141,30 @@ theorem C01_pe_unknowns (net : PE.Net K) (np : Ls.Net.NetProblem K) (u : Unknown
   rw [F.u_list, Fr.list] at hj
   have := s1 j e' hj
   rw [F.u_net]; exact this
+
+/-- **`unknowns_` is total**: after `project_equations()` EVERY element `0 … n-1` of `unknowns_` has been assigned
+    (no value-initialised element is left), the element is what its position says, and two entries that both are
+    what position `j` says are equal — each index `1 … n` is claimed by exactly one (type, point / stand-point).
+    This is the invariant whose violation was the heap-buffer-overflow repaired by /repo 3fb8708 (a point with
+    `index_y() ≠ 0`, `index_x() = 0`: 'X' was written through `index_x()-1`): the model writes 'X' and 'Y' separately,
+    and every index handed out by the linearisation is written by exactly one of the two loops.
+    `DirFromStation`: the directions of a `StandPoint` are observed at its station (the C++ constructors guarantee
+    it; the model's `Cluster` does not, and without it the 'R' element of a station that is not `active_xy()` stays
+    unwritten) — the only hypothesis. -/
+theorem C01_pe_unknowns_total (net : PE.Net K) (np : Ls.Net.NetProblem K) (u : Unknowns K)
+    (h : projectEquations net = .ok (np, u)) (hds : DirFromStation u.net) :
+    (∀ j, j < np.n → ∃ e, u.list[j]? = some (some e) ∧ EntryOK u.net u.net.idx j e) ∧
+    (∀ j e e', EntryOK u.net u.net.idx j e → EntryOK u.net u.net.idx j e' → e = e') := by
+  obtain ⟨net', a, F⟩ := pe_final net np u h
+  obtain ⟨b, Fr⟩ := assemble_fresh net' a F.asm
+  have e : np.n = a.np.n := by rw [F.np_eq]
+  have hds' : DirFromStation net' := by rw [F.u_net] at hds; exact hds
+  refine ⟨fun j hj => ?_, fun j e1 e2 h1 h2 => ?_⟩
+  · obtain ⟨e', he'⟩ := unknownsList_total Fr F.revised hds' j (by rw [← e]; exact hj)
+    have hl : u.list[j]? = some (some e') := by rw [F.u_list, Fr.list]; exact he'
+    exact ⟨e', hl, (C01_pe_unknowns net np u h).2 j e' hl⟩
+  · rw [F.u_net] at h1 h2
+    exact entryOK_unique Fr j e1 e2 h1 h2
 
 /-- **`hori`** (hypothesis of `C12_original_index`, `C03_xml_cov_is_m0sq_Q`): the orientation unknown number `i`
     (`unknown_type(i) == 'R'`) belongs to the stand-point whose `index_orientation()` is `i` -/
@@ -254,6 +283,39 @@ theorem C01_pe_dense_is_sparse (t : TrigFns K) (net : PE.Net K) (np : NetProblem
 
 end facade
 
+/-! ### C07's form of "the orientation unknown is not regularised" -/
+
+/-- **`colOf … uOri ∉ S`** (hypothesis of `C07_circle_rotation_assembled`, `Lemmas/C07Assemble.lean::solution_shift`)
+    for the C07 object built from the call: the last inner call is a pass `r` of `Lin.passFrom` from the cleared
+    state over `revised_obs_` of `u.net` with `r.idx.maxn = np.n` columns; for ANY family `obsF` of C07 observations
+    that are those of this pass in its order, and any regularisation subset `S` of C07's column type all of whose
+    members are (as 1-based indexes) in `np.minx` — in particular the set of `min_x_` itself — the column of an
+    orientation unknown is not in `S`. -/
+theorem C07_pe_ori_not_regularised_colOf (net : PE.Net ℝ) (np : Ls.Net.NetProblem ℝ) (u : Unknowns ℝ)
+    (h : projectEquations net = .ok (np, u)) :
+    ∃ (r : PassOut ℝ) (outs : List (LinOut ℝ)),
+      passFrom (sigmaOf u.net) u.net.fuel (revisedObs u.net) IdxState.init = .ok r ∧ r.idx.maxn = np.n ∧
+      List.Forall₂ (fun ob out => ob.kind.lin u.net.fuel ((sigmaOf u.net).view ob) = .ok out) (revisedObs u.net) outs ∧
+      ∀ {m : Nat} (obsF : Fin m → Lin.Ob ℝ) (hw : ∀ i, wellTouched (obsF i).evs [] = true),
+        List.ofFn obsF = obsOfPass (revisedObs u.net) outs →
+        ∀ (k : Nat) (hu : (⟨k, .ori⟩ : Unk) ∈ touchedSet obsF)
+          (S : Finset (Fin (finalState obsF (Equiv.refl _)).maxn)), (∀ j ∈ S, j.val + 1 ∈ np.minx) →
+          colOf obsF hw (Equiv.refl _) ⟨k, .ori⟩ hu ∉ S := by
+  obtain ⟨net', a, F⟩ := pe_final net np u h
+  obtain ⟨b, Fr⟩ := assemble_fresh net' a F.asm
+  have hnot := C07_pe_ori_not_regularised net np u h
+  rw [F.u_net] at hnot ⊢
+  obtain ⟨outs, h1, _, h3⟩ := codeMatrixOf_eq_codeMatrix (sigmaOf net') net'.fuel (revisedObs net') b Fr.pass
+  refine ⟨b, outs, Fr.pass, by rw [F.np_eq]; exact Fr.n.symm, h1, ?_⟩
+  intro m obsF hw hF k hu S hS hmem
+  have hfs := (h3 obsF hF).1
+  have hg := colUnk_get obsF hw (Equiv.refl _) (colOf obsF hw (Equiv.refl _) ⟨k, .ori⟩ hu)
+  rw [colUnk_colOf] at hg
+  have hb : b.idx.get ⟨k, .ori⟩ = (colOf obsF hw (Equiv.refl _) ⟨k, .ori⟩ hu).val + 1 := by
+    rw [← hg]; exact (congrArg (fun s : IdxState => s.get ⟨k, .ori⟩) hfs).symm
+  have ha : a.idx.get ⟨k, .ori⟩ = b.idx.get ⟨k, .ori⟩ := Fr.agree _ (Or.inl rfl)
+  exact hnot k (by show a.idx.get ⟨k, .ori⟩ ∈ np.minx; rw [ha, hb]; exact hS _ hmem)
+
 /-! ### non-vacuity -/
 
 section examples
@@ -270,6 +332,22 @@ example : (∃ np u, projectEquations net1 = .ok (np, u)) ∧
     system (projectEquations net1) = some ([[(1, 1)], [(1, -1), (2, 1)]], [10, 10]) ∧
     table (projectEquations net1) = some [some ⟨"B", .Z, none⟩, some ⟨"C", .Z, none⟩] :=
   ⟨net1_ok, net1_counts, net1_system, net1_table⟩
+
+/-- `C01_pe_unknowns_total` on `Ex.net1`: no cluster is a stand-point, so `DirFromStation` holds for whatever the
+    call leaves (its clusters keep `stand = none`: `obsShape`-independent, evaluated), and both elements of
+    `unknowns_` are written (`table` above: `[Z of B, Z of C]`, no `none`) -/
+example : ∀ np u, projectEquations net1 = .ok (np, u) → DirFromStation u.net ∧ ∀ j, j < np.n → ∃ e, u.list[j]? = some (some e) := by
+  intro np u h
+  have hst : (match projectEquations net1 with
+      | .ok (_, u) => u.net.clusters.all (fun c => c.stand.isNone)
+      | .error _ => false) = true := by decide +kernel
+  rw [h] at hst
+  have hds : DirFromStation u.net := by
+    intro c hc st o hs
+    have := List.all_eq_true.mp hst c hc
+    rw [hs] at this; cases this
+  exact ⟨hds, fun j hj => by
+    obtain ⟨e, he, _⟩ := (C01_pe_unknowns_total net1 np u h hds).1 j hj; exact ⟨e, he⟩⟩
 
 /-- `NoAlias` holds for every observation of `Ex.net1` … -/
 example : ∀ c ∈ net1.clusters, ∀ o ∈ c.obs, NoAlias (o.toN 0) := by decide
